@@ -335,3 +335,217 @@ Proof.
   - reflexivity.
   - vm_compute. discriminate.
 Qed.
+
+(* ------------------------------------------------------------------ (1, continued) list and dict dispatchers *)
+Lemma guard_list_agree B st : resolve_guard B st = guard_src src_resolve_conflicted_decisions_list B st.
+Proof.
+  unfold resolve_guard, guard_src, src_resolve_conflicted_decisions_list. cbn [d_skip d_needs_conflict].
+  destruct st as [s|]; [|reflexivity]. unfold ostr_eqb, str_in. cbn [existsb].
+  rewrite orb_false_r. reflexivity.
+Qed.
+
+Lemma guard_dict_agree B st : resolve_guard B st = guard_src src_resolve_conflicted_decisions_dict B st.
+Proof.
+  unfold resolve_guard, guard_src, src_resolve_conflicted_decisions_dict. cbn [d_skip d_needs_conflict].
+  destruct st as [s|]; [|reflexivity]. unfold ostr_eqb, str_in. cbn [existsb].
+  rewrite orb_false_r. reflexivity.
+Qed.
+
+Ltac split_tests s :=
+  repeat match goal with
+         | |- context [str_eqb s ?c] => let E := fresh "E" in destruct (str_eqb s c) eqn:E
+         end.
+
+Ltac absurd_tests s :=
+  exfalso;
+  match goal with
+  | H : str_eqb s _ = true |- _ => apply str_eqb_true_eq in H; subst s
+  end;
+  match goal with
+  | H : str_eqb _ _ = true |- _ => vm_compute in H; discriminate
+  | H : str_eqb _ _ = false |- _ => vm_compute in H; discriminate
+  end.
+
+Theorem list_follows_source H p base B st : resolve_conflicted_list H p base B st = list_src H p base B st.
+Proof.
+  unfold resolve_conflicted_list, list_src. rewrite guard_list_agree.
+  destruct (negb (guard_src src_resolve_conflicted_decisions_list B st)); [reflexivity|].
+  destruct st as [s|]; [|reflexivity].
+  unfold src_resolve_conflicted_decisions_list. cbn [d_chain d_else select_arm stest_matches].
+  unfold s_inline_outputs, s_inline_cells, s_remove, s_clear_all, s_union, s_clear.
+  split_tests s; cbn [orb interp_container_arm interp_plain_arm];
+    try reflexivity; try (rewrite generic_follows_source; reflexivity); try absurd_tests s.
+Qed.
+
+Theorem dict_follows_source H p base B st : resolve_conflicted_dict H p base B st = dict_src H p base B st.
+Proof.
+  unfold resolve_conflicted_dict, dict_src. rewrite guard_dict_agree.
+  destruct (negb (guard_src src_resolve_conflicted_decisions_dict B st)); [reflexivity|].
+  destruct st as [s|]; [|reflexivity].
+  unfold src_resolve_conflicted_decisions_dict. cbn [d_chain d_else select_arm stest_matches].
+  unfold s_record_conflict, s_inline_attachments, s_union.
+  split_tests s; cbn [orb interp_container_arm interp_plain_arm];
+    try reflexivity; try (rewrite generic_follows_source; reflexivity); try absurd_tests s.
+Qed.
+
+(* ------------------------------------------------------------------ (4) the clear-all arm: collect_diffs *)
+(* Witnesses taken from real runs (harness/c03_common.corpus_triples: output-metadata+append and the three-outputs case):
+   a conflict on the outputs list plus (a) a one-sided decision one level below whose opposite diff is None,
+   (b) a strategy-marked conflict two levels below with string keys. *)
+Definition w_path : path := [KS (of_ascii "cells"); KI 0; KS (of_ascii "outputs")].
+Definition w_base : list json := [JObj []; JObj []].
+Definition w_conflict : decision :=
+  mkDec w_path ABase true (Some [DAddRange (KI 1) (VList [JInt 1%Z])]) (Some [DAddRange (KI 1) (VList [JInt 2%Z])]) None None None.
+Definition w_none : builder :=
+  [w_conflict;
+   mkDec (w_path ++ [KI 0]) ARemote false None (Some [DReplace (KS (of_ascii "a")) (JInt 3%Z)]) None None None].
+Definition w_mixed : builder :=
+  [w_conflict;
+   mkDec (w_path ++ [KI 0; KS (of_ascii "metadata")]) ACustom true
+         (Some [DReplace (KS (of_ascii "a")) (JInt 2%Z)]) (Some [DReplace (KS (of_ascii "a")) (JInt 3%Z)])
+         (Some [DAdd (KS (of_ascii "nbdime-conflicts")) (JObj [])]) (Some (of_ascii "record-conflict")) None].
+
+Theorem clear_all_refuted_pinned :
+  clear_all_arm APLPinned w_path w_base w_none = Err TypeError /\
+  clear_all_arm APLPinned w_path w_base w_mixed = Err TypeError.
+Proof. split; vm_compute; reflexivity. Qed.
+
+Theorem clear_all_witnesses_pass_fixed :
+  is_ok (clear_all_arm APLFixed w_path w_base w_none) = true /\
+  is_ok (clear_all_arm APLFixed w_path w_base w_mixed) = true.
+Proof. split; vm_compute; reflexivity. Qed.
+
+Definition clear_all_status (v : apl_variant) : Prop :=
+  match v with
+  | APLPinned => exists p base B, has_conflicted B = true /\ clear_all_arm v p base B = Err TypeError
+  | APLFixed => is_ok (clear_all_arm v w_path w_base w_none) = true /\ is_ok (clear_all_arm v w_path w_base w_mixed) = true
+  end.
+
+Lemma clear_all_status_all v : clear_all_status v.
+Proof.
+  destruct v; cbn [clear_all_status].
+  - exists w_path, w_base, w_none. split; [reflexivity | apply clear_all_refuted_pinned].
+  - apply clear_all_witnesses_pass_fixed.
+Qed.
+
+(* what holds for the source as it is now (the generated constant): refuted while pinned, witnesses pass once repaired *)
+Theorem clear_all_follows_source : clear_all_status adjust_patch_level_variant.
+Proof. apply clear_all_status_all. Qed.
+
+(* ------------------------------------------------------------------ (3, continued) the other places a use-X acts *)
+(* whatever action the open run proposed for the conflict (base, local_then_remote, remote_then_local), the decision
+   registered by the use-X run is that decision relabelled *)
+Lemma add_decision_relabel B p a0 a l r st :
+  map drop_strategy (add_decision B p a l r false st None None)
+  = map drop_strategy B ++ relabel_conflicts a
+      (skipn (List.length B) (map drop_strategy (add_decision B p a0 l r true None None None))).
+Proof.
+  unfold add_decision.
+  destruct (ensure_common_path (S (odepth l + odepth r + odepth None)) p [l; r; None]) as [p' ds].
+  assert (K : skipn (List.length B) (map drop_strategy B) = []).
+  { rewrite <- (map_length drop_strategy B). apply skipn_all. }
+  destruct ds as [|x1 [|x2 [|x3 [|x4 ds]]]]; try (rewrite K; cbn; rewrite app_nil_r; reflexivity).
+  rewrite !map_app. rewrite <- (map_length drop_strategy B). rewrite skipn_app, skipn_all, Nat.sub_diag.
+  cbn. reflexivity.
+Qed.
+
+(* _merge_lists, P/R and R/P chunks (generic.py 574-582 vs 599): `list_strategy == "use-X"` calls decisions.X(path, p0, p1);
+   the open run registers decisions.conflict(path, p0, p1, item_strategy) with no item strategy *)
+Theorem use_side_equiv_pr_arm cs B p l r :
+  truthy l = true -> truthy r = true -> conflict_args_eqb cs l r = false ->
+  exists Bopen, b_conflict cs B p l r None = Ok Bopen /\
+    map drop_strategy (b_base B p l r)
+      = map drop_strategy B ++ relabel_conflicts ABase (skipn (List.length B) (map drop_strategy Bopen)) /\
+    (exists Bl, b_local B p l r = Ok Bl /\
+       map drop_strategy Bl = map drop_strategy B ++ relabel_conflicts ALocal (skipn (List.length B) (map drop_strategy Bopen))) /\
+    (exists Br, b_remote B p l r = Ok Br /\
+       map drop_strategy Br = map drop_strategy B ++ relabel_conflicts ARemote (skipn (List.length B) (map drop_strategy Bopen))).
+Proof.
+  intros Hl Hr Hne. exists (add_decision B p ABase l r true None None None).
+  split.
+  { unfold b_conflict, b_conflict_gen. rewrite Hl, Hr, Hne. reflexivity. }
+  split; [apply add_decision_relabel|]. split.
+  - exists (add_decision B p ALocal l r false None None None). split.
+    + unfold b_local. rewrite Hl. reflexivity.
+    + apply add_decision_relabel.
+  - exists (add_decision B p ARemote l r false None None None). split.
+    + unfold b_remote. rewrite Hr. reflexivity.
+    + apply add_decision_relabel.
+Qed.
+
+(* _merge_lists, A/P, A/R (and P/A, R/A) chunks (generic.py 603-610): tryresolve with the item strategy, else
+   local_then_remote / remote_then_local flagged as conflict *)
+Theorem use_side_equiv_insert_arm cs B p l r side :
+  is_side side -> truthy l = true -> truthy r = true -> conflict_args_eqb cs l r = false ->
+  exists Bside,
+    b_tryresolve cs B p l r (Some (use_strategy side)) = Ok (Bside, true) /\
+    b_tryresolve cs B p l r (Some (of_ascii "mergetool")) = Ok (B, false) /\
+    (forall Bopen, b_local_then_remote B p l r true = Ok Bopen ->
+       map drop_strategy Bside = map drop_strategy B ++
+         relabel_conflicts (side_action side) (skipn (List.length B) (map drop_strategy Bopen))) /\
+    (forall Bopen, b_remote_then_local B p l r true = Ok Bopen ->
+       map drop_strategy Bside = map drop_strategy B ++
+         relabel_conflicts (side_action side) (skipn (List.length B) (map drop_strategy Bopen))).
+Proof.
+  intros Hs Hl Hr Hne.
+  assert (M : b_tryresolve cs B p l r (Some (of_ascii "mergetool")) = Ok (B, false)).
+  { unfold b_tryresolve. cbn [of_ascii]. rewrite Hl, Hr, Hne. reflexivity. }
+  assert (T : forall a st, (forall Bopen, b_local_then_remote B p l r true = Ok Bopen ->
+       map drop_strategy (add_decision B p a l r false st None None) = map drop_strategy B ++
+         relabel_conflicts a (skipn (List.length B) (map drop_strategy Bopen))) /\
+       (forall Bopen, b_remote_then_local B p l r true = Ok Bopen ->
+       map drop_strategy (add_decision B p a l r false st None None) = map drop_strategy B ++
+         relabel_conflicts a (skipn (List.length B) (map drop_strategy Bopen)))).
+  { intros a st. unfold b_local_then_remote, b_remote_then_local. rewrite Hl, Hr. cbn [andb].
+    split; intros Bopen E; injection E as <-; apply add_decision_relabel. }
+  destruct Hs as [-> | [-> | ->]].
+  - exists (add_decision B p ABase l r false (Some (use_strategy (of_ascii "base"))) None None).
+    split; [unfold b_tryresolve; cbn [use_strategy use_ of_ascii app]; rewrite Hl, Hr, Hne; reflexivity|].
+    split; [exact M|]. apply (T ABase).
+  - exists (add_decision B p ALocal l r false (Some (use_strategy (of_ascii "local"))) None None).
+    split; [unfold b_tryresolve; cbn [use_strategy use_ of_ascii app]; rewrite Hl, Hr, Hne; reflexivity|].
+    split; [exact M|]. apply (T ALocal).
+  - exists (add_decision B p ARemote l r false (Some (use_strategy (of_ascii "remote"))) None None).
+    split; [unfold b_tryresolve; cbn [use_strategy use_ of_ascii app]; rewrite Hl, Hr, Hne; reflexivity|].
+    split; [exact M|]. apply (T ARemote).
+Qed.
+
+(* ------------------------------------------------------------------ (2, continued) level dispatchers: total modulo the hooks *)
+(* the list-level dispatcher either returns normally or IS the call of the inline-family hook; the only other possible
+   failure is the union arm's base lookup, and "union" is in no table (strategy_dispatch_total) *)
+Theorem list_dispatch_total_modulo_hooks H p base B s :
+  s <> of_ascii "union" ->
+  (exists B', resolve_conflicted_list H p base B (Some s) = Ok B') \/
+  resolve_conflicted_list H p base B (Some s) = hk_list H p base B s.
+Proof.
+  intros Hu. unfold resolve_conflicted_list.
+  destruct (negb (resolve_guard B (Some s))); [left; eauto|].
+  destruct (str_eqb s s_inline_outputs || str_eqb s s_inline_cells || str_eqb s s_remove || str_eqb s s_clear_all);
+    [right; reflexivity|].
+  destruct (str_eqb s s_union) eqn:E.
+  - exfalso. apply Hu. apply str_eqb_true_eq. exact E.
+  - destruct (str_eqb s s_clear); left; eauto.
+Qed.
+
+Theorem dict_dispatch_total_modulo_hooks H p base B s :
+  (exists B', resolve_conflicted_dict H p base B (Some s) = Ok B') \/
+  resolve_conflicted_dict H p base B (Some s) = hk_dict H p base B s.
+Proof.
+  unfold resolve_conflicted_dict.
+  destruct (negb (resolve_guard B (Some s))); [left; eauto|].
+  destruct (str_eqb s s_record_conflict || str_eqb s s_inline_attachments); [right; reflexivity|].
+  destruct (str_eqb s s_union); left; eauto.
+Qed.
+
+(* "union" is indeed placed nowhere by any accepted configuration *)
+Lemma union_in_no_table :
+  forallb (fun c => forallb (fun e => match snd e with Some s => negb (str_eqb s (of_ascii "union")) | None => true end)
+                            (cfg_table c)) all_configs = true.
+Proof. vm_compute. reflexivity. Qed.
+
+Theorem union_never_placed c p s : In c all_configs -> In (p, Some s) (cfg_table c) -> s <> of_ascii "union".
+Proof.
+  intros Hc Hin. pose proof union_in_no_table as U. rewrite forallb_forall in U. specialize (U c Hc).
+  rewrite forallb_forall in U. specialize (U (p, Some s) Hin). cbn in U.
+  intros ->. vm_compute in U. discriminate.
+Qed.
